@@ -57,6 +57,12 @@ Theorem C39_fileinfo_roundtrip : forall m path ct body, wf_meta m = true ->
 Proof. exact file_info_form. Qed.
 Print Assumptions C39_fileinfo_roundtrip.
 
+(** The fuel the parser model is run with is never exhausted — for either flag and
+    for EVERY list of parts (hostile names, any order), so [parse] is total. *)
+Theorem C39_parse_total : forall fl ps, parse fl ps <> None.
+Proof. exact parse_total. Qed.
+Print Assumptions C39_parse_total.
+
 (** Non-vacuity: a valid depth-3 tree with hostile names, a set and an unset mode,
     set and unset times, whose serialization has 6 parts. *)
 Example C39_example :
